@@ -11,6 +11,7 @@ import (
 
 	"github.com/vipnode/vipnode/v2/internal/verif/vh"
 	"github.com/vipnode/vipnode/v2/internal/verif/vsched"
+	"github.com/vipnode/vipnode/v2/pool"
 )
 
 // C04 — every signed endpoint acts only on requests signed by the identity they name.
@@ -208,6 +209,70 @@ func c04Unit(endpoint string) vh.Unit {
 	}}
 }
 
+// vipnode_update signed in the deprecated format (what old agents send): the pool falls back to
+// verifying the signature over {peers, block_number} only.
+func c04Legacy() vh.Unit {
+	name := "alterations/vipnode_update-legacy-format"
+	cast := vh.StdCast()
+	return vh.Unit{Name: name, Run: func(u *vh.U) {
+		owner, other := cast.ByName["C1"], cast.ByName["H3"]
+		for _, prefix := range c04States[1:] {
+			build := func() (*vh.PoolWorld, context.Context) {
+				vsched.ResetClock(0)
+				pw := vh.NewPoolWorld(vh.PoolConfig{Driver: vh.Memory})
+				for _, e := range prefix {
+					vh.PoolEvent(pw, cast, e)
+				}
+				return pw, vh.CtxWith(pw.Host("conn-" + owner.Name).Service())
+			}
+			req := vh.DefaultParam("vipnode_update", cast.ByName["H1"].NodeID).(pool.UpdateRequest)
+			req.Peers = []string{cast.ByName["H1"].NodeID}
+			nonce := vsched.Base().UnixNano() + int64(3600e9) + 7000
+			base := vh.NewLegacyUpdateCall(owner, nonce, req)
+			{
+				pw, ctx := build()
+				if _, err := base.Invoke(pw, ctx); vh.IsRefused(err) {
+					u.Violate("c04/vipnode_update-legacy/valid-request-refused", fmt.Sprintf("state %v: %v", prefix, err), nil)
+				}
+			}
+			for _, a := range c04Alterations(base, owner, other) {
+				if a.class == "method" || a.class == "other-key" || strings.HasPrefix(a.label, "owner-signs") {
+					continue // these re-sign in the current format; the current-format unit covers them
+				}
+				pw, ctx := build()
+				before := poolDigest(pw, cast)
+				var err error
+				p := vh.Recover(func() { _, err = a.call.Invoke(pw, ctx) })
+				after := poolDigest(pw, cast)
+				u.R.Evaluations++
+				u.R.States++
+				u.R.Transitions++
+				u.R.Traces++
+				cls := a.class
+				if a.class == "param" {
+					cls = strings.SplitN(a.label, ":", 2)[0] // param.<field path>
+					if i := strings.Index(cls[6:], "."); i >= 0 {
+						cls = cls[:6+i]
+					}
+				}
+				u.Observe(fmt.Sprintf("legacy %s refused=%v", cls, vh.IsRefused(err)))
+				if !a.judge {
+					continue
+				}
+				switch {
+				case p != "":
+					u.Violate("c04/vipnode_update-legacy/panic/"+cls, fmt.Sprintf("state %v, alteration %q: panic: %s", prefix, a.label, p), nil)
+				case !vh.IsRefused(err):
+					u.Violate("c04/vipnode_update-legacy/altered-request-accepted/"+cls, fmt.Sprintf("state %v: a vipnode_update signed in the deprecated format, then altered (%s), was not refused (err=%v)", prefix, a.label, err), nil)
+				case before != after:
+					u.Violate("c04/vipnode_update-legacy/refused-but-acted/"+cls, fmt.Sprintf("state %v, alteration %q", prefix, a.label), nil)
+				}
+			}
+		}
+		u.Sample("vipnode_update signed over the deprecated {peers, block_number} payload, every single-component alteration")
+	}}
+}
+
 func init() {
 	vh.Register(&vh.Check{
 		ID: "C04", Level: "model_checking",
@@ -222,6 +287,7 @@ func init() {
 			for _, e := range vh.SignedEndpoints {
 				us = append(us, c04Unit(e))
 			}
+			us = append(us, c04Legacy())
 			return us
 		},
 	})
